@@ -68,6 +68,28 @@ type qField struct {
 	points bool
 }
 
+// derivedEqualsStored reports whether q is a derived field (x op y over two table fields) whose expression, once the
+// field names are replaced by their definitions, is literally the expression of some stored table field.
+func (q *qField) derivedEqualsStored(t *ref.TableSpec) bool {
+	if q.base >= 0 || q.points || q.a < 0 || q.b < 0 || q.a >= len(t.Fields) || q.b >= len(t.Fields) {
+		return false
+	}
+	strip := func(f *ref.FieldDef) string {
+		sql := f.SQL()
+		if i := strings.LastIndex(sql, " AS "); i >= 0 {
+			sql = sql[:i]
+		}
+		return strings.Join(strings.Fields(sql), " ")
+	}
+	e := strip(&t.Fields[q.a]) + " " + q.op + " " + strip(&t.Fields[q.b])
+	for i := range t.Fields {
+		if strip(&t.Fields[i]) == e {
+			return true
+		}
+	}
+	return false
+}
+
 func (q *qField) value(t *ref.TableSpec, cell *ref.Cell) (val float64, dontCare bool) {
 	if q.points {
 		return float64(cell.Points), false
@@ -219,6 +241,10 @@ func compareBuckets(c *fw.Ctx, what string, t *ref.TableSpec, res *dbh.Result, c
 				vsig := sig + "-value"
 				if fs[fi].involves(t, collidingFields(t)) {
 					vsig += "-wavg-text-collision"
+				}
+				if fs[fi].derivedEqualsStored(t) {
+					// known finding: a derived select expression whose text equals the expression of a stored field
+					vsig += ":derived-equals-stored-field"
 				}
 				c.ViolateData(vsig, data, "%s: %q row (ts=%v key=%s): %s = %v, reference (raw points %v) says %v", what, res.SQL, time.Unix(0, row.TS).UTC(), row.Key, fs[fi].sql, got, cell.IDs, want)
 				return compared
